@@ -261,3 +261,21 @@ pub fn load_known() -> Vec<Known> {
     }
     out
 }
+
+/// A search that never returns cannot be unwound: report the hang from a watchdog thread,
+/// write a minimal evidence file and replay artefact, and exit with the violation status.
+pub fn emergency_violation(prop: &str, tier: &str, seed: u64, v: &Violation, states_so_far: u64) -> ! {
+    let p = format!("{}/replays/{}_{}_{}_hang.json", VERIF_DIR, prop, tier, v.class.replace('/', "_"));
+    let _ = std::fs::create_dir_all(format!("{}/replays", VERIF_DIR));
+    let _ = std::fs::write(&p, serde_json::to_string_pretty(&v.to_json()).unwrap());
+    let ev = json!({
+        "property_id": prop, "tier": tier, "seed": seed, "level": "model_checking",
+        "coverage": {"states": states_so_far.max(1), "transitions": states_so_far.max(1), "traces_validated_against_impl": states_so_far, "samples": [v.to_json()], "exhaustive": false,
+                     "notes": ["run aborted by the watchdog: a call into the subject did not return"]},
+        "assumptions": [], "wall_s": 0.0, "violations": 1
+    });
+    let _ = std::fs::write(format!("{}/evidence/{}.json", VERIF_DIR, prop), serde_json::to_string_pretty(&ev).unwrap());
+    println!("  violation class={} seed=\"{}\" :: {}", v.class, v.seed, v.detail);
+    println!("VIOLATION property={} replay={}", prop, p);
+    std::process::exit(1);
+}
